@@ -86,6 +86,22 @@ theorem model_refines_spec_clean (cl : Nat → Nat) (chunks : List (List UInt8))
   rw [model_refines_spec_partial cl chunks hR]
   simp only [specItems, Spec.VT500.runD, runFromD_eq devAll {} _ hA, runFromD_eq Spec.VT500.Dev.none {} _ hA]
 
+/-- The same for the interpreter of the table **regenerated from ansi/parser.go on this run** (what the
+    correspondence driver executes): a change to any `case`, statement or `return` of a state
+    function changes `genTable` and this theorem is re-checked against it. -/
+theorem gen_model_refines_spec_partial (cl : Nat → Nat) (chunks : List (List UInt8))
+    (hR : Respects cl 0 (units (streamOf chunks))) :
+    noErr (flat (runChunks genTable cl (natChunks chunks))) =
+      (specItems devAll (decodeRunes (streamOf chunks))).map specSeq ++ [.eof] := by
+  have hstep : ∀ s i, step genTable s i = step handTable s i := fun s i =>
+    (VaxisModel.Lemmas.ParserConform.step_congr handTable genTable (by decide +kernel) (by decide +kernel)
+      (by decide +kernel) s i).symm
+  have : runChunks genTable cl (natChunks chunks) = runChunks handTable cl (natChunks chunks) := by
+    unfold runChunks
+    rw [runLoop_table_congr genTable handTable hstep]
+  rw [this]
+  exact model_refines_spec_partial cl chunks hR
+
 /-- **The model's UTF-8 decoding is the Spec's** (`Spec.VT500.decode`: Table 3-7 of the Unicode
     standard, every byte that does not start a well-formed sequence delivered raw) — every byte list. -/
 theorem decoder_is_spec (bs : List Nat) : Spec.VT500.decode bs = decodeRunes bs :=
